@@ -862,7 +862,11 @@ XalanTransformer::setStylesheetParam(
             const XalanDOMString&    qname,
             const XalanDOMString&    expression)
 {
-    m_params[qname].m_expression = expression;
+    XalanParamHolder&   theParam = m_params[qname];
+
+    // This replaces any value set previously.
+    theParam.m_expression = expression;
+    theParam.m_value = XObjectPtr();
 }
 
 void
@@ -870,7 +874,11 @@ XalanTransformer::setStylesheetParam(
             const XalanDOMString&    qname,
             XObjectPtr               object)
 {
-    m_params[qname].m_value = object;
+    XalanParamHolder&   theParam = m_params[qname];
+
+    // This replaces any expression set previously.
+    theParam.m_value = object;
+    theParam.m_expression.clear();
 }
 
 
